@@ -72,9 +72,12 @@ def _chunk_worker(args):
     out = {"first": first, "n": 0, "nt": [], "counters": {}, "sim_s": 0.0, "violations": [], "samples": [],
            "ood": 0, "aborted_other": 0, "harness": [], "digests": []}
     m = hashlib.sha256()
+    findings = load_findings()
+    unlisted = 0
+    listed = 0
+    hang = False
     for index in range(first, first + n):
-        if (_STOP is not None and _STOP.is_set()) or len(out["violations"]) >= 3 or \
-                any(v["kind"] == "hang" for _, v, _ in out["violations"]):
+        if (_STOP is not None and _STOP.is_set()) or unlisted >= 3 or hang:
             out["truncated"] = True
             break
         seed = core.run_seed(root_seed, pid, index)
@@ -101,7 +104,15 @@ def _chunk_worker(args):
         out["ood"] += 1 if res["ood"] else 0
         out["aborted_other"] += 1 if res["aborted_other"] else 0
         if res["violation"] is not None:
-            out["violations"].append((index, res["violation"], res.get("case") or case))
+            if match_finding(findings, pid, res["violation"]) is not None:
+                listed += 1          # a listed finding: keep exploring, keep only a couple of witnesses
+                out["counters"]["known_finding_hits"] = out["counters"].get("known_finding_hits", 0) + 1
+                if listed <= 2:
+                    out["violations"].append((index, res["violation"], res.get("case") or case))
+            else:
+                unlisted += 1
+                hang = hang or res["violation"]["kind"] == "hang"
+                out["violations"].append((index, res["violation"], res.get("case") or case))
         if want_samples and res["nt"] is not None and len(out["samples"]) < want_samples:
             out["samples"].append({"run": index, "seed": seed, "case": case, "trace": res.get("trace"),
                                    "digest": res["digest"]})
@@ -178,6 +189,12 @@ def load_findings():
     return findings
 
 
+def _finding_body(f):
+    """'kind=... site=... <what fails>' (the line without its 'finding: property=<id>' prefix)."""
+    parts = f["text"].split(None, 2)
+    return parts[2] if len(parts) > 2 else f["text"]
+
+
 def match_finding(findings, pid, v):
     for f in findings:
         if f["property"] == pid and f["kind"] == v["kind"] and f["site"] == v["site"]:
@@ -224,7 +241,7 @@ def replay(path) -> int:
     core.out(f"replay: kind={v['kind']} site={v['site']}\n   {v['detail'][:1500]}")
     f = match_finding(load_findings(), pid, v)
     if f:
-        core.out(f"KNOWN-FINDING: property={pid} {f['text']}")
+        core.out(f"KNOWN-FINDING: property={pid} {_finding_body(f)}")
         return 0
     core.out(f"VIOLATION property={pid} replay={path}")
     return 1
@@ -327,7 +344,7 @@ def run_check(pid: str, tier: str, root_seed: int, workers=None, budget_override
     for sig, (index, v, case) in sorted(by_sig.items(), key=lambda kv: kv[1][0]):
         f = match_finding(findings, pid, v)
         if f:
-            line = f"KNOWN-FINDING: property={pid} {f['text']}"
+            line = f"KNOWN-FINDING: property={pid} {_finding_body(f)}"
             known_lines.append(line)
             core.out(line)
             continue
